@@ -170,7 +170,7 @@ func ruleC09(c *Ctx) []*report.Result {
 							}
 							wc.payload = singleVariadicElem(args[len(args)-1])
 							writes = append(writes, wc)
-						case f != nil && strings.HasSuffix(n, ".restore"):
+						case f != nil && (strings.HasSuffix(n, ".restore") || recvNamed(f) == restorerName):
 						case isBuiltinCall(ci, "len"):
 						default:
 							// helper calls that cannot write are irrelevant; a second
